@@ -88,6 +88,7 @@ type e3World struct {
 	dir    string
 	env    *callEnv
 	colID  string
+	sdl    string
 }
 
 func (w *e3World) fail(format string, a ...any) { w.res.HarnessErr = fmt.Sprintf(format, a...) }
@@ -112,7 +113,11 @@ func (w *e3World) start() bool {
 	}
 	w.n = n
 	setRandStep("schema")
-	cols, err := n.DB.AddSchema(n.reqCtx(), e3SDL(p.cfg("col", 0), p.cfg("rel", 0) == 1))
+	sdl := e3SDL(p.cfg("col", 0), p.cfg("rel", 0) == 1)
+	if w.sdl != "" {
+		sdl = w.sdl
+	}
+	cols, err := n.DB.AddSchema(n.reqCtx(), sdl)
 	if err != nil {
 		w.fail("AddSchema: %v", err)
 		return false
